@@ -648,4 +648,146 @@ theorem lts_passes (ht : FlowsOK F cfg) {a1 : A} {H : List (HEv ℚ)} {t : ℚ} 
       · rw [if_neg hz] at h
         exact absurd rfl h
 
+/-! ## the fuel of the LTS loop suffices -/
+
+theorem maxSize_ge : ∀ (l : List (Nat × Option MPkt)) (c : Nat) (p : MPkt), (c, some p) ∈ l → p.size ≤ DRR.maxSize l
+  | [], _, _, h => by cases h
+  | (c0, some p0) :: r, c, p, h => by
+    simp only [DRR.maxSize]
+    rcases List.mem_cons.mp h with h | h
+    · cases h; split <;> omega
+    · have := maxSize_ge r c p h
+      split <;> omega
+  | (c0, none) :: r, c, p, h => by
+    simp only [DRR.maxSize]
+    rcases List.mem_cons.mp h with h | h
+    · cases h
+    · exact maxSize_ge r c p h
+
+theorem maxSize_dictOf (keys : List Nat) (g : Nat → Option MPkt) {c : Nat} {p : MPkt} (hc : c ∈ keys) (hg : g c = some p) :
+    p.size ≤ DRR.maxSize (dictOf keys g) :=
+  maxSize_ge _ c p (by simp only [dictOf, List.mem_map]; exact ⟨c, hc, by rw [hg]⟩)
+
+variable {now : ℚ}
+
+/-- the passes the LTS budgets for (from the parked packets it sees) end the burst -/
+theorem passes_k0 {a1 : A} {H : List (HEv ℚ)} {t : ℚ} (hm : MidInv F flow size cfg Lmax P a1 now)
+    (hpk : ∀ c', a1.hol c' ≠ none → c' ∈ parkKeys flow H) (L : LS) (hmono : ∀ f, a1.dfc f ≤ L.dfc f) :
+    (passes (qOf cfg) size a1.ccnt a1.hol t (a1.total F) cfg.weights
+      (DRR.maxSize (dictOf (parkKeys flow H) fun c => (a1.hol c).map (pktOf flow size)) / 1500 + 2) L).2 ≠ .hang := by
+  refine passes_no_hang (size := size) (qOf_ge hm.table) (flows_nodup hm.table) (mid_total_nonneg hm) _ L
+    (fun c hc => le_trans (hm.dfcOK c ((mem_flows hm.table c).mp hc)) (hmono c)) ?_
+  intro hpos
+  obtain ⟨j, -, hj, hcp⟩ := sumFrom_pos _ _ _ hpos
+  have hjF : j < F := by omega
+  refine ⟨j, (mem_flows hm.table j).mpr hjF, by rw [hm.ccntOK j hjF]; exact hcp, ?_⟩
+  intro id hid
+  have h1 : (pktOf flow size id).size ≤ DRR.maxSize (dictOf (parkKeys flow H) fun c => (a1.hol c).map (pktOf flow size)) :=
+    maxSize_dictOf _ _ (hpk j (by rw [hid]; simp)) (by simp [hid])
+  have h2 : (0 : ℚ) ≤ L.dfc j := le_trans (hm.dfcOK j hjF) (hmono j)
+  have h3 := Nat.lt_mul_div_succ (DRR.maxSize (dictOf (parkKeys flow H) fun c => (a1.hol c).map (pktOf flow size))) (by norm_num : 0 < 1500)
+  have h4 : size id < 1500 * (DRR.maxSize (dictOf (parkKeys flow H) fun c => (a1.hol c).map (pktOf flow size)) / 1500 + 1) :=
+    lt_of_le_of_lt h1 h3
+  have h5 : ((size id : ℕ) : ℚ) ≤ ((1500 * (DRR.maxSize (dictOf (parkKeys flow H) fun c => (a1.hol c).map (pktOf flow size)) / 1500 + 1) : ℕ) : ℚ) := by
+    exact_mod_cast le_of_lt h4
+  rw [Num.ofNat_rat]
+  push_cast at h5 ⊢
+  linarith
+
+/-- **the rest of a burst of the LTS**: after a piece of the `for` loop that takes `X ≤ 2·n + 1` moves, the budget the LTS
+computes from its parked packets is enough to reach what `thenPasses` computes -/
+theorem lts_rest (ht : FlowsOK F cfg) {a1 : A} {H : List (HEv ℚ)} {t : ℚ} (hm : MidInv F flow size cfg Lmax P a1 now)
+    (hpk : ∀ c', a1.hol c' ≠ none → c' ∈ parkKeys flow H) (hflow : ∀ c id, a1.hol c = some id → flow id = c)
+    (piece : LS × Option LoopEnd) (hmono : ∀ f, a1.dfc f ≤ piece.1.dfc f) (X : Nat) (hX : X ≤ 2 * cfg.weights.length + 1)
+    (S : MQState ℚ (DRR.Ctl ℚ))
+    (hsim : ∀ N, settle (DRR.sched cfg) (X + N) S =
+      match piece with
+      | (L', some e) => endM cfg flow size a1 H L' t e
+      | (L', none) => settle (DRR.sched cfg) N (lst cfg flow size a1 H L' t .top))
+    (hne : (thenPasses (qOf cfg) size a1.ccnt a1.hol t (a1.total F) cfg.weights P piece).2 ≠ .hang) :
+    settle (DRR.sched cfg)
+        ((2 * cfg.weights.length + 3) * (DRR.maxSize (dictOf (parkKeys flow H) fun c => (a1.hol c).map (pktOf flow size)) / 1500 + 3)) S =
+      endM cfg flow size a1 H (thenPasses (qOf cfg) size a1.ccnt a1.hol t (a1.total F) cfg.weights P piece).1 t
+        (thenPasses (qOf cfg) size a1.ccnt a1.hol t (a1.total F) cfg.weights P piece).2 := by
+  generalize hM : DRR.maxSize (dictOf (parkKeys flow H) fun c => (a1.hol c).map (pktOf flow size)) / 1500 = M
+  have hfuel : (2 * cfg.weights.length + 3) * (M + 3) =
+      (2 * cfg.weights.length + 2) * (M + 2) + (2 * cfg.weights.length + 2) + (M + 2) + 1 := by ring
+  obtain ⟨L', oe⟩ := piece
+  cases oe with
+  | some e =>
+    obtain ⟨N, hN⟩ : ∃ N, (2 * cfg.weights.length + 3) * (M + 3) = X + N := ⟨(2 * cfg.weights.length + 3) * (M + 3) - X, by omega⟩
+    rw [hN, hsim N]
+    rfl
+  | none =>
+    simp only [thenPasses] at hne ⊢
+    have hk0 := passes_k0 (t := t) hm hpk L' hmono
+    rw [hM] at hk0
+    obtain ⟨N, hN⟩ : ∃ N, (2 * cfg.weights.length + 3) * (M + 3) = X + ((2 * cfg.weights.length + 2) * (M + 2) + 1 + N) :=
+      ⟨(2 * cfg.weights.length + 3) * (M + 3) - X - ((2 * cfg.weights.length + 2) * (M + 2) + 1), by omega⟩
+    rw [hN, hsim _]
+    simp only
+    rw [lts_passes ht hpk hflow N (M + 2) L' hk0, passes_agree L' hk0 hne]
+
+/-! ## how a burst of the LTS ends -/
+
+theorem upd_map {β γ : Type} (items : Nat → β) (f : Nat) (v : β) (g : β → γ) :
+    upd (fun f' => g (items f')) f (g v) = fun f' => g (upd items f v f') := by
+  funext f'
+  by_cases h : f' = f
+  · subst h; simp
+  · simp [upd_ne _ _ _ _ h]
+
+theorem storeOf_dictOf (keys : List Nat) (g : Nat → List MPkt) (f : Nat) (h : f ∉ keys → g f = []) :
+    storeOf (dictOf keys g) f = g f := by
+  simp only [storeOf, lookupD, lookup_dictOf]
+  by_cases hk : f ∈ keys
+  · simp [hk]
+  · simp [hk, h hk]
+
+variable {n e : Nat}
+
+/-- the loop takes the head of `stores[c']` -/
+theorem endM_get {a1 : A} {H : List (HEv ℚ)} {L : LS} {t : ℚ} {m' c' : Nat} {id' : Int} {is : List Int}
+    (hn : a1.keys.Nodup) (hk : c' ∈ a1.keys) (hit : a1.items c' = id' :: is) (hfl : flow id' = c') (q' : QEntry ℚ) (g : EvId) :
+    endM cfg flow size a1 H L t (.get m' c') =
+      .ok (toM cfg.flows flow size
+        { (finA a1 L (some (.get m' c'))) with run := .H g m' id' q', items := upd a1.items c' is } (H ++ L.evs) t) := by
+  have hs : storeOf (lst cfg flow size a1 H L t (.gotPkt m')).stores c' = pktOf flow size id' :: is.map (pktOf flow size) := by
+    simp only [lst, mst, finA]
+    rw [storeOf_dictOf _ _ _ (fun h => absurd hk h), hit]; rfl
+  simp only [endM, issueGet, hs]
+  congr 1
+  simp only [lst, toM, mst, ctlOf, finA, holAfter, pcOf, phaseOf, hfl, setKey_dictOf _ hn, addKey_of_mem _ _ hk]
+  congr 1
+  rw [← upd_map]
+
+/-- the loop sends the parked head of class `c'` -/
+theorem endM_send {a1 : A} {H : List (HEv ℚ)} {L : LS} {t : ℚ} {m' c' : Nat} {id' : Int} {pk : Bool}
+    (hpk : c' ∈ parkKeys flow (H ++ L.evs)) (q' : QEntry ℚ) (p : EvId) :
+    endM cfg flow size a1 H L t (.send m' c' id' pk) =
+      .ok (toM cfg.flows flow size
+        { (finA a1 L (some (.send m' c' id' true))) with run := .S p m' id' q', cur := some id' } (H ++ L.evs ++ [.serve id' t]) t) := by
+  have hnd := parkKeys_nodup flow (H ++ L.evs)
+  simp only [endM, spawn, lst, toM, mst, ctlOf, finA, holAfter, pcOf, phaseOf, if_true, visitsOf_snoc, sentOf_snoc, forfKeys_snoc,
+    parkKeys_snoc, setKey_dictOf _ hnd, addKey_of_mem _ _ hpk, Option.map_some]
+  congr 2
+  refine congrArg (dictOf _) (funext fun c => ?_)
+  by_cases hc : c = c'
+  · subst hc; simp
+  · simp [upd_ne _ _ _ _ hc]
+
+/-- the loop blocks on the wake-up store -/
+theorem endM_idle_zero {a1 : A} {H : List (HEv ℚ)} {L : LS} {t : ℚ} (htk : a1.tokens = 0) (g : EvId) :
+    endM cfg flow size a1 H L t .idle =
+      .ok (toM cfg.flows flow size { (finA a1 L (some .idle)) with run := .W g } (H ++ L.evs ++ [.idle t]) t) := by
+  simp only [endM, blockOnToken, lst, toM, mst, ctlOf, finA, holAfter, pcOf, phaseOf, htk, visitsOf_snoc, sentOf_snoc, forfKeys_snoc,
+    parkKeys_snoc]
+
+/-- the loop takes a token that is there -/
+theorem endM_idle_succ {a1 : A} {H : List (HEv ℚ)} {L : LS} {t : ℚ} {k : Nat} (htk : a1.tokens = k + 1) (g : EvId) (q' : QEntry ℚ) :
+    endM cfg flow size a1 H L t .idle =
+      .ok (toM cfg.flows flow size { (finA a1 L (some .idle)) with run := .K g q', tokens := k } (H ++ L.evs ++ [.idle t]) t) := by
+  simp only [endM, blockOnToken, lst, toM, mst, ctlOf, finA, holAfter, pcOf, phaseOf, htk, visitsOf_snoc, sentOf_snoc, forfKeys_snoc,
+    parkKeys_snoc]
+
 end DRRK
